@@ -1,1 +1,31 @@
-// harnesses for vub_event_loop
+// Child module of vhost_user_backend::event_loop: literal constructor for VringEpollHandler (its `new`
+// cannot be compiled by Kani 0.68, see vub_vring.rs), access to the private handle_event, C17 unit harnesses.
+use super::*;
+use crate::verif as vgm;
+
+pub(crate) const EPFD0: RawFd = 77; // epoll descriptor of worker thread t is EPFD0 + t
+
+pub(crate) fn mk_epoll_handler<T: VhostUserBackend>(backend: T, vrings: Vec<T::Vring>, thread_id: usize, exit: Option<EventNotifier>) -> VringEpollHandler<T> {
+    VringEpollHandler {
+        // SAFETY: Epoll is a plain wrapper around the descriptor number; every method is stubbed
+        epoll: unsafe { std::mem::transmute::<RawFd, Epoll>(EPFD0 + thread_id as RawFd) },
+        backend,
+        vrings,
+        thread_id,
+        exit_event_fd: exit,
+        phantom: PhantomData,
+    }
+}
+/// the worker's reaction to one epoll event (the real private function)
+pub(crate) fn worker_handle_event<T: VhostUserBackend>(h: &VringEpollHandler<T>, device_event: u16) -> Option<bool> {
+    let r = h.handle_event(device_event, EventSet::IN);
+    let out = match &r {
+        Ok(b) => Some(*b),
+        Err(_) => None,
+    };
+    std::mem::forget(r);
+    out
+}
+pub(crate) fn epfd<T: VhostUserBackend>(h: &VringEpollHandler<T>) -> RawFd {
+    h.epoll.as_raw_fd()
+}
